@@ -169,4 +169,22 @@ while len(cases) < ncase:
     except Exception as e:
         fails.append(dict(signature="C13:construct-raises:" + type(e).__name__, what="constructing a formula raised %s: %s" % (type(e).__name__, e)))
         break
+# the round trip within a private table: the printed form of a formula of T's atoms, parsed with table=T, has T's atoms
+try:
+    from periodictable import mass as _mass, density as _density
+    _T = core.PeriodicTable("verif_c13")
+    _mass.init(_T); _density.init(_T)
+    stats["private_roundtrip"] = 0
+    for a in [_T.Fe, _T.D, _T.T, _T.H[1], _T.O[18], _T.Fe.ion[2], _T.Fe[56].ion[3], _T.D.ion[1], _T.U, _T.n if False else _T.C]:
+        for f in (formula(a), formula([(2, a), (1, _T.O)])):
+            text = str(f)
+            g = attempt(lambda: formula(text, table=_T))
+            stats["private_roundtrip"] += 1
+            if isinstance(g, Exception) or any(not any(x is y for y in f.atoms) for x in g.atoms) or len(g.atoms) != len(f.atoms):
+                fails.append(dict(signature="C13:private-table-roundtrip", what="formula(%r, table=T) for the printed form of a formula of T's atoms "
+                                  "gives %s" % (text, g if isinstance(g, Exception) else {repr(x): getattr(x, "table", None) or x.element.table
+                                                                                              for x in g.atoms}),
+                                  string=text, source="private"))
+except Exception as e:  # noqa
+    fails.append(dict(signature="C13:private-table-roundtrip", what="the private-table round trip raised %s: %s" % (type(e).__name__, e), string="", source="private"))
 json.dump(dict(cases=cases, meta=meta, direct_fails=fails, stats=stats), sys.stdout)
